@@ -9,6 +9,7 @@ CONSTANTS
   SectorSize = 32
   MaxFaults = 1
   MaxRetry = 0
+  Session = FALSE
   Kinds = {"T2", "T1S", "T1D", "T512"}
   Sizes = {1, 2, 3, 5}
   Pads = {0, 1, 2, 3}
